@@ -675,6 +675,12 @@ fn to_list(ctx: &Context, top: &Number, list: &[&str]) -> Result<Vec<NumberParts
     let mut out = vec![];
     let len = units.len();
     for (i, unit) in units.into_iter().enumerate() {
+        if unit.value == Numeric::zero() || unit.value == Numeric::Float(0.0) {
+            return Err(QueryError::generic(format!(
+                "Unit list contains a unit with a value of zero: <{}>",
+                unit.show(ctx)
+            )));
+        }
         if i == len - 1 {
             out.push(&value / &unit.value);
         } else {
